@@ -72,6 +72,59 @@ def echo_size(fc):
     return lemma
 
 
+MESSAGE_MODULES = ['bit_read_message', 'bit_write_message', 'register_read_message', 'register_write_message', 'diag_message', 'file_message',
+                   'other_message', 'mei_message']
+# request classes whose prediction has a lemma of its own below (diagnostic requests: one per sub-function, C14/size.diag.*)
+COVERED = set(M.short(M.REQ[fc]) for fc in (1, 2, 3, 4, 5, 6, 15, 16, 22, 23))
+
+
+def request_classes(E):
+    """every class of the message modules whose name ends in Request, read from the source the check runs on"""
+    import ast, os
+    if E.mode == 'symbolic':
+        from pyvc.resolver import Repo
+        root = Repo.get().root
+    else:
+        import pymodbus
+        root = os.path.dirname(os.path.dirname(pymodbus.__file__))
+    out = []
+    for m in MESSAGE_MODULES:
+        tree = ast.parse(open(os.path.join(root, 'pymodbus', m + '.py')).read())
+        out += ['pymodbus.%s.%s' % (m, n.name) for n in tree.body if isinstance(n, ast.ClassDef) and n.name.endswith('Request')]
+    return out
+
+
+def exposes_prediction(E, qual):
+    c = E.cls(qual)
+    return c.lookup('get_response_pdu_size')[0] if E.mode == 'symbolic' else hasattr(c, 'get_response_pdu_size')
+
+
+def mask_write_size(E):
+    """FC 22: the reply echoes the request.  If the class exposes a prediction it is the size of that echo; if it exposes none the
+    client reads what is waiting (nothing to decide)"""
+    if not exposes_prediction(E, M.REQ[22]):
+        E.prove('no-prediction-exposed:the-client-reads-what-is-waiting', True)
+        return
+    a, am, om = E.int('address', 0, 65536), E.int('and_mask', 0, 65536), E.int('or_mask', 0, 65536)
+    req = M.request(E, 22, address=a, and_mask=am, or_mask=om)
+    resp = E.obj(M.RSP[22], address=a, and_mask=am, or_mask=om, **C.BASE)
+    E.prove('predicted==1+len(normal response)', E.method(req, 'get_response_pdu_size') == 1 + L.length(E.method(resp, 'encode')))
+
+
+def uncovered_lemma(E):
+    """the property speaks of EVERY request class exposing a prediction: the classes this check has lemmas for are exactly those that expose
+    one.  A class that starts to expose a prediction without a lemma here is out of reach (undecided), never silently passed"""
+    for q in request_classes(E):
+        name = M.short(q)
+        if name in COVERED or q.startswith('pymodbus.diag_message.'):
+            continue
+        if exposes_prediction(E, q):
+            if E.mode == 'symbolic':
+                from pyvc.values import Unsupported
+                raise Unsupported('%s exposes get_response_pdu_size and C14 has no lemma for it' % q)
+    E.prove('every-predicting-request-class-has-a-lemma', True)
+
+
 def manager(E, fqual):
     fr = framer(E, fqual)
     client = E.obj('pymodbus.client.sync.BaseModbusClient', framer=fr)
@@ -163,6 +216,8 @@ def get_units():
                        functions=[M.REQ[fc] + '.get_response_pdu_size', M.RSP[fc] + '.encode']))
     for fc in (5, 6, 15, 16):
         us.append(Unit('C14/size.fc%02d' % fc, echo_size(fc), ['C14'], functions=[M.REQ[fc] + '.get_response_pdu_size', M.RSP[fc] + '.encode']))
+    us.append(Unit('C14/size.fc22', mask_write_size, ['C14'], functions=[M.REQ[22] + '.get_response_pdu_size', M.RSP[22] + '.encode']))
+    us.append(Unit('C14/size.classes-covered', uncovered_lemma, ['C14']))
     for fq, nm in ((RTU, 'rtu'), (ASCII, 'ascii'), (BINARY, 'binary'), (TLS, 'tls'), (SOCKET, 'socket')):
         us.append(Unit('C14/adu.%s' % nm, adu_overhead(fq, nm), ['C14'], contracts=cs,
                        functions=[TM + '._set_adu_size', TM + '._calculate_response_length', fq + '.buildPacket']))
